@@ -52,7 +52,11 @@ CLAIMED = {
             'order of shared variables, bindings too unless one variable is bound twice to different values (witness proved: '
             'the hash-seed dependence repaired by a fix: commit). Purity is what being a Lean function means; the real code is '
             'checked for it by snapshots, double evaluation, a Pool worker and fresh interpreters under several '
-            'PYTHONHASHSEED values on every run.',
+            'PYTHONHASHSEED values on every run. For what the program parses with: read_params as a Lean model (Config.lean, '
+            'compared with the real function on in-memory configurations) with program_gate_en / program_gate_ja (a pair passes '
+            'iff its erased form is the erased form of a configured pair; an empty list or --disable-seen-rules switches the gate '
+            'off), program_unary_en / _ja (configured targets in file order, wherever the lines stand), read_params_total; and '
+            'en_system_closed / ja_system_closed / lazy_no_raise: no rule-function call of a run over a one-system lexicon raises.',
             NOTE + 'interpreter hashing / process behaviour is observed by the cross-process correspondence only.',
             'DESIGN.md §4 C14'),
 }
@@ -179,8 +183,8 @@ CLAIMED.update({
             'the large negative value, everything else and the shape untouched), applicability iff every dictionary category is in '
             'the list; and, by kernel evaluation of tables re-emitted from /repo on every run, every one of the 3469 shipped '
             'category strings reads to a well-formed category and every category of cat_dict.en belongs to targets.en. '
-            'Model diffed against apply_category_filters on real numpy arrays; elementwise oracle; shipped files loaded with the '
-            'real parser.',
+            'Model diffed against apply_category_filters on real numpy arrays (fresh, sliced, strided and column-major); elementwise oracle; shipped files loaded with the '
+            'real parser. read_params (Config.lean) hands out the configured dictionary and root categories in order (dict_roots, dict_off).',
             NOTE + 'the jsonnet-subset reader of harness/tables.py is trusted for extracting the tables.',
             'DESIGN.md §4 C17'),
     'C18': (T_PROOF,
